@@ -906,6 +906,8 @@ def gen_bigint_huge(rng, count, W=64):
         x = rand_big(rng, rng.choice([1, 2, 5, 30, CAP - 1, CAP]), W=W)
         h = rng.choice(H)
         op = rng.choice(["shl_limbs", "shl", "shl"])
+        if op == "shl" and h >= 2 ** 57:
+            h = rng.choice([x for x in H if x < 2 ** 57])
         n = h if op == "shl_limbs" else h * W + rng.choice([0, 1, W - 1])
         out.append(("bg %s %s %d" % (op, ltok(x), n), "L-huge-" + op))
     return out
@@ -973,6 +975,8 @@ def huge_lengths(rng):
             out.append(base + k)
     for j in (2, 3, 255, 65535):
         out.append((j << 16) + rng.randint(0, 62))
+    # sums with a small length that wrap a 64-bit usize
+    out += [2 ** 64 - 1, 2 ** 64 - 2, 2 ** 64 - 3, 2 ** 64 - 62, 2 ** 64 - 63, 2 ** 63, 2 ** 63 + 1]
     return out
 
 def gen_histories_huge(rng, count):
